@@ -1,4 +1,4 @@
-\* behaviour generation from the as-coded model (simulation mode)
+\* behaviour generation where the client of A on C (short trusting period) expires at an arbitrary point (C14)
 CONSTANTS
   Chains = {"A","B","C"}
   Names = {"A","B","C","Z"}
@@ -22,11 +22,11 @@ CONSTANTS
   UserData = {"d1","d2"}
   RuleChains = {"B"}
   AdvOn = TRUE
-  ExpirePairs <- NoPairs
+  ExpirePairs <- ExpireCA
   ExportOn = FALSE
   LOG = TRUE
   SimDepth = 40
-  SimMode = "mixed"
+  SimMode = "replay"
 INIT Init
 NEXT NextSim
 INVARIANT PrintBehaviour
